@@ -359,6 +359,21 @@ func main() {
 				return
 			}
 		}
+		// two keys holding ONE mutable object: harmless for this connection, but commands on the two keys take different
+		// lock stripes over the same Go map - the lead for a crash under two connections (confirmed over TCP by the check)
+		objOwner := map[uintptr]string{}
+		for _, v := range memdb.VerifDump(db) {
+			if v.Obj == 0 {
+				continue
+			}
+			if other, dup := objOwner[v.Obj]; dup {
+				report("shared-object", name, argv, fmt.Sprintf("%s|%s|%s", v.Type, other, v.Key), source)
+				srv = fresh()
+				sinceFresh = 0
+				return
+			}
+			objOwner[v.Obj] = v.Key
+		}
 		sinceFresh++
 		if sinceFresh%16 == 0 {
 			for _, k := range probeKeys {
